@@ -396,7 +396,7 @@ const NUM: [&str; 19] = [
 ];
 
 fn num_classes(tier: Tier, extra: &[&'static str]) -> Vec<&'static str> {
-    let mut v: Vec<&str> = if tier.thorough() { NUM.to_vec() } else { NUM[..].iter().copied().filter(|s| !["7e0", "+7", "-", "1e999", "-2147483647"].contains(s)).collect() };
+    let mut v: Vec<&str> = if tier.thorough() { NUM.to_vec() } else { NUM[..].iter().copied().filter(|s| !["7e0", "+7", "-", "1e999"].contains(s)).collect() };
     v.extend_from_slice(extra);
     v
 }
@@ -568,6 +568,7 @@ fn check(section: &str, header: &str, lines: &[&str], acc: &mut Acc) {
         .map(str::trim_end)
         .collect();
     let want = reference(section, &fed);
+    let _g = crate::engine::watch::bytes_guard(text.as_bytes());
     for (dec, got) in observe(section, &text) {
         acc.evals += 1;
         acc.transitions += lines.len() as u64;
